@@ -123,7 +123,7 @@ def r04_2(ctx):
             ok = contains(e, lambda x: (x[0] == "call" and isinstance(x[1], str) and (re.search(ACQ, x[1]) or re.search(SUB_ACQ, x[1]) or re.search(r"PoisonError::<.*>::into_inner$", x[1])))
                           or x[0] in ("param",) or (x[0] == "field" and x[1][0] == "param"))
             ctx.verdict(True if ok else None, "R04.2", root_fn(F, f), "guard-from-acquisition", b.line_at((blk, 10 ** 6)), "guard built from %s" % fmt(e, 4))
-    ctx.floor("R04.2", n, 8)
+    ctx.floor("R04.2", n, 4)
 
 
 def r04_3(ctx):
@@ -135,7 +135,7 @@ def r04_3(ctx):
             continue
         bodies = logical_bodies(F, f)
         main = bodies[0]
-        b = main.built
+        b = inl(F, main)
         acq = b.calls(SUB_ACQ)
         n += 1
         where = b.line_at((acq[0][0], 10 ** 6)) if acq else f.loc()
